@@ -205,6 +205,82 @@ pub fn produce(tier: Tier, emit: &mut dyn FnMut(Case)) {
             });
         }
     }
+    // (B2) look-alikes of the five special names (equal to one of them up to ASCII case, a trailing blank or NUL,
+    // '_' for '-'): alone and next to the exact name, in the first operation group, a later one, a job group
+    for (i, look) in special_name_lookalikes() {
+        let (exact_name, exact_val) = &special[i];
+        for with_exact in [false, true] {
+            for placement in 0..3 {
+                let mut attrs = vec![Attr { name: look.clone(), values: vec![exact_val.clone()] }];
+                if with_exact {
+                    attrs.push(attr(exact_name, vec![exact_val.clone()]));
+                }
+                let mut m = Msg::new(0x0101, 0x0002, 5);
+                match placement {
+                    0 => m.groups.push(Group { tag: TAG_OPERATION, attrs }),
+                    1 => {
+                        m.groups.push(Group { tag: TAG_OPERATION, attrs: vec![attr("x", vec![Val::Int(1)])] });
+                        m.groups.push(Group { tag: TAG_OPERATION, attrs });
+                    }
+                    _ => {
+                        m.groups.push(Group { tag: TAG_OPERATION, attrs: vec![attr("x", vec![Val::Int(1)])] });
+                        m.groups.push(Group { tag: TAG_JOB, attrs });
+                    }
+                }
+                emit(Case { kind: "special-lookalike", msg: m, payload_kind: 0 });
+            }
+        }
+    }
+    // (B3) twins: two DISTINCT names that collide under a plausible normalisation, side by side in one group
+    // (operation / job) and as members of one collection; and the empty member name
+    let mut twins = name_twins();
+    twins.push((b"".to_vec(), b"a".to_vec()));
+    for (a, b) in twins {
+        for placement in 0..3 {
+            if placement < 2 && (a.is_empty() || b.is_empty()) {
+                // an attribute (as opposed to a member) with an empty name is not representable on the wire
+                continue;
+            }
+            let mut m = Msg::new(0x0101, 0x0002, 5);
+            let pair = vec![
+                Attr { name: a.clone(), values: vec![Val::Int(1)] },
+                Attr { name: b.clone(), values: vec![Val::Int(2), Val::Str(T_KEYWORD, b"k".to_vec())] },
+            ];
+            match placement {
+                0 => m.groups.push(Group { tag: TAG_OPERATION, attrs: pair }),
+                1 => {
+                    m.groups.push(Group { tag: TAG_OPERATION, attrs: vec![attr("x", vec![Val::Int(1)])] });
+                    m.groups.push(Group { tag: TAG_JOB, attrs: pair });
+                }
+                _ => m.groups.push(Group {
+                    tag: TAG_OPERATION,
+                    attrs: vec![attr(
+                        "c",
+                        vec![Val::Coll(vec![(a.clone(), vec![Val::Int(1)]), (b.clone(), vec![Val::Int(2), Val::Bool(true)])])],
+                    )],
+                }),
+            }
+            emit(Case { kind: "name-twins", msg: m, payload_kind: 0 });
+        }
+    }
+    // (B4) long names / texts made of multi-octet characters at every alignment (see multibyte_names)
+    for len in MULTIBYTE_LENS {
+        for n in multibyte_names(len) {
+            let mut m = Msg::new(0x0101, 0, 1);
+            let lang_end = (0..=60.min(n.len())).rev().find(|i| std::str::from_utf8(&n[..*i]).is_ok()).unwrap_or(0);
+            m.groups.push(Group {
+                tag: TAG_OPERATION,
+                attrs: vec![
+                    Attr { name: n.clone(), values: vec![Val::Str(T_TEXT, n.clone())] },
+                    Attr {
+                        name: b"c".to_vec(),
+                        values: vec![Val::Coll(vec![(n.clone(), vec![Val::TextLang(n[..lang_end].to_vec(), n.clone())])])],
+                    },
+                ],
+            });
+            emit(Case { kind: "multibyte-name", msg: m, payload_kind: 0 });
+        }
+    }
     // (C) permutation programs
     for m in perm_programs() {
         emit(Case {
